@@ -42,7 +42,8 @@ class Contract:
                  locals=None, ghost_modifies=(), decreases=None, loop_all=None, closure=None,
                  waive=(), havoc_stmts=(), dyn_call_ghost=None, ghost_calls=(), exit_post=(),
                  valid_schema=False, raise_post=(), rely=None, call_pre=None, start_at=None, coroutine=False, budget=1,
-                 assumed_ensures=(), class_invariants=(), decreases_when=None, never_raises=()):
+                 assumed_ensures=(), class_invariants=(), decreases_when=None, never_raises=(),
+                 field_invariants=None):
         self.target = target
         self.requires = list(requires)
         self.ensures = list(ensures)
@@ -70,6 +71,9 @@ class Contract:
         self.ghost_calls = list(ghost_calls)   # ghost counters of calls to this function
         self.exit_post = list(exit_post)       # clauses over the locals, checked at every return
         self.valid_schema = valid_schema       # assume schema validity facts (A7) in this proof
+        self.field_invariants = field_invariants or {}   # "Class.attr" -> clauses over `v` (the
+            # object read from that field) and the function's names: assumed when the field is first
+            # read (an invariant of the linked structure; its writers must re-establish it)
         self.never_raises = list(never_raises)   # classes that must not escape even though a blanket
                                                  # `raises Exception` (user callables) is declared
         self.decreases_when = decreases_when   # clause over the caller's entry parameters: the
